@@ -24,7 +24,9 @@ MixLaw(e) == LET nv == Len(e.k)
 Mix == IsEv("mix") /\ MixLaw(Rec[l])
 Vertex == IsEv("vertex") /\ Rec[l].mix = Rec[l].single
 Ident == IsEv("ident") /\ Rec[l].ulps <= 64
-Next == Mix \/ Vertex \/ Ident
+\* the engine's trajectories under a voice set = the public pipeline's under the same weights (each quantity its own vector)
+Wiring == IsEv("wiring") /\ Rec[l].equal
+Next == Mix \/ Vertex \/ Ident \/ Wiring
 Spec == Init /\ [][Next]_l
 Accepted == IF TLCGet("stats").diameter - 1 = Len(Rec) THEN TRUE
             ELSE Print(<<"REJECT at", TLCGet("stats").diameter>>, FALSE)
